@@ -22,6 +22,12 @@ SO = {"threads": 1, "time_limit": 10}
 
 def gen_cases(tier, seed):
     cases = []
+    # corpus: long paths whose slack is scaled DOWN by a path-length factor < 1 (the slack itself must be allowed to exceed the largest weight)
+    for fl in ([1, 1, 0, 0], [2, 2, 2, 0, 0], [3, 0, 0, 0]):
+        nodes = [str(i) for i in range(len(fl) + 1)]; edges = list(zip(nodes, nodes[1:]))
+        base = {"nodes": nodes, "edges": edges, "flow": dict(zip(edges, fl)), "planted": [], "wt": "int", "mode": "edge"}
+        cases.append({"cyc": False, "mode": "edge", "wt": "int", "kdelta": 0, "knone": False, "ignore": [], "scale": [], "starts": [], "ends": [], "superset": None,
+                      "plr": [[[0, 3], [4, 60]], [1.0, 0.5]], "spec": I.spec_of(base)})
     n = 260 if tier == "quick" else 3000
     for i in range(n):
         rng = gen.rng_for("C08", seed, i)
